@@ -70,7 +70,7 @@ CHECKS = {
     "C20": {
         "lean": ["DrummerVerif.Props.C20"],
         "streams": [{"cmd": "kvcodec", "driver": "CodecDriver", "sections": None, "eval_re": r"^case:",
-                     "args": {"quick": ["-n", "1500", "-depth", "5"], "thorough": ["-n", "40000", "-depth", "6"]}}],
+                     "args": {"quick": ["-n", "1500", "-depth", "5"], "thorough": ["-n", "40000", "-depth", "6", "-big"]}}],
         "rule": "kv.KV of the real package: (1) pairs over the length grid {0,1,2,127,128,129,16383,16384,16385,70000}^2 with random byte content, (2) EVERY byte string over the alphabet {00,01,02,7f,80,ff} up to the given depth decoded into a non-empty prior object (exhaustive), (3) random pairs incl. empty key/value, each with three mutated encodings (truncated, bit flipped, suffix appended, over-long varint inserted), (4) encodings of exactly ColferSizeMax-1 and ColferSizeMax bytes; non-trivial = encode cases (each also decoded back, decoded with a suffix and length-checked on the implementation)",
         "assumptions": ["Go strings hold arbitrary bytes; copy/len as specified"],
         "trusted": ["16 MiB boundary case is run on the real code only (the model proves the round trip under the exact guard len < ColferSizeMax)"],
